@@ -525,6 +525,10 @@ class ExprMixin:
         want_bool = "z3.BoolRef" in names
         want_int = "int" in names
         k = x[0]
+        if k == "phi" and len(x) == 4:
+            # a value chosen by a conditional: decided when both alternatives agree
+            a_, b_ = self.static_isinstance(x[2], names), self.static_isinstance(x[3], names)
+            return a_ if a_ is not None and a_ == b_ else None
         if k == "list":
             return want_list
         if k == "k":
